@@ -30,10 +30,10 @@ type AuthenticateASCII struct {
 
 // Handle is the main entry for ascii flows.
 func (a *AuthenticateASCII) Handle(response tq.Response, request tq.Request) {
-	if reply := a.authenticateContinueStop(request); reply != nil {
-		response.ReplyWithContext(request.Context, reply, a.recorderWriter)
-		return
-	}
+	// the packet that opens the session is an AuthenStart.  The abort flag only exists in
+	// AuthenContinue packets, so it is not looked for here: the octets of a start packet with long
+	// fields can also be read as a continue packet whose flags octet (the user length) has the
+	// abort bit set.
 	a.RecordCtx(&request, tq.ContextUser, tq.ContextRemoteAddr, tq.ContextPort, tq.ContextPrivLvl)
 	if a.username == "" {
 		// client didn't send us a username to start with
@@ -47,8 +47,8 @@ func (a *AuthenticateASCII) Handle(response tq.Response, request tq.Request) {
 		)
 		return
 	}
-	// clients can provide a user up front, we must look before we can decide what to do next
-	a.getUsername(response, request)
+	// clients can provide a user up front, all that is left to ask for is the password
+	a.promptPassword(response, request)
 }
 
 // getUsername collects a username
@@ -90,6 +90,11 @@ func (a *AuthenticateASCII) getUsername(response tq.Response, request tq.Request
 		}
 		a.username = string(body.UserMessage)
 	}
+	a.promptPassword(response, request)
+}
+
+// promptPassword asks the client for the password of the user we now know
+func (a *AuthenticateASCII) promptPassword(response tq.Response, request tq.Request) {
 	a.RecordCtx(&request, tq.ContextUserMsg)
 	response.Next(tq.HandlerFunc(a.getPassword))
 	response.Reply(
